@@ -4,7 +4,7 @@
 //@ strength complete for offset_size (all usize); bounded(INDEX offset arrays of 2 entries; last offset symbolic over the full u32 range) for serialise_offset_array
 //@ unverified owned::Index write / read_index round trip on object data, DICT two-pass offsets, charsets, FDSelect
 
-//@ harness cff_offset_size kind=complete fns=offset_size
+//@ harness cff_offset_size kind=complete fns=offset_size props=C09,C15
 #[kani::proof]
 fn cff_offset_size() {
     // the smallest offSize that can hold the value (CFF INDEX offsets are 1-based: the LAST offset is data length + 1)
@@ -30,7 +30,7 @@ fn offset_array_case(size: u8, last: usize) {
     assert!(v == last, "the last offset is not truncated");
 }
 
-//@ harness cff_offset_array kind=bounded:2offsets fns=serialise_offset_array,offset_size timeout=600
+//@ harness cff_offset_array kind=bounded:2offsets fns=serialise_offset_array,offset_size timeout=600 props=C09,C15
 #[kani::proof]
 #[kani::unwind(6)]
 fn cff_offset_array() {
